@@ -5,10 +5,8 @@ import (
 	"go/ast"
 	"go/token"
 	"go/types"
-	"os"
 	"sort"
 	"strings"
-	"time"
 
 	"golang.org/x/tools/go/packages"
 )
@@ -41,13 +39,8 @@ func init() {
 			"Equals beyond 'looks at every collection', the keys under which the loader re-inserts children (shown harmless: every copy re-keys through getUseable*), " +
 			"which privilege ids are legal at which level, and the GRANT/REVOKE plan nodes that call these methods (C39)",
 		Run: func(c *Ctx) {
-			t0 := time.Now()
 			pairs := runC41(c, "sql/mysql_db", "sql/mysql_db/serial", "MySQLDb.Persist", "MySQLDb.LoadData", 45, 41)
-			t1 := time.Now()
 			runC41Tree(c, "sql/mysql_db", "PrivilegeSet", pairs, c41tFloors{p1a: 10, p1b: 11, p1c: 1, p2a: 10, p2b: 23, p2c: 4, p3: 6, p4: 14})
-			if os.Getenv("VCHK_DUMP") != "" {
-				fmt.Printf("TIMING C41 F-rules %v, tree rules %v\n", t1.Sub(t0), time.Since(t1))
-			}
 		},
 		Fixture: func(c *Ctx, fx *Prog) {
 			expectFixture(c, fx, "c41: unread field, unwritten field and swapped fields must be reported",
